@@ -62,6 +62,22 @@ def rule_implicit_codes(ctx, rep, config="c-lib"):
         rep.violation("C11-codes", "set_sgrammar/implicit-code-counter", what + " (documented: distinct free codes from 256 upwards in order of appearance)", where=s.where(), witness=[s.where()])
     else:
         rep.ok("C11-codes", "set_sgrammar/implicit-code-counter", sample={"store": s.where(), "initial": 256, "step": 1})
+    # free: the counter is compared with the codes that were given explicitly (a code taken by a declaration `= n' is not handed out a second time)
+    cmp_ = None
+    for c in f.all_insts():
+        if c.op != "icmp" or c.d["pred"] not in ("eq", "ne"):
+            continue
+        for (x, y) in ((0, 1), (1, 0)):
+            lp = loaded_from(f, c.ops[x])
+            o = strip_int_casts(f, c.ops[y])
+            if lp is not None and lp.last_field() == "sterm.code" and o.get("k") == "i" and o["v"] in members:
+                cmp_ = c
+    if cmp_ is not None:
+        rep.ok("C11-codes", "set_sgrammar/implicit-code-free", sample={"compared_at": cmp_.where()})
+    else:
+        rep.violation("C11-codes", "set_sgrammar/implicit-code-free", "the counter for implicit codes is never compared with the codes of the declared terminals: a code given "
+                      "explicitly (`TERM a = 256 b') is handed out a second time and the well-formed description is refused with YAEP_REPEATED_TERM_CODE "
+                      "(documented: the next FREE code starting with 256)", where=s.where(), witness=[s.where()])
     from .r5 import _controlling_conditions
     conds = _controlling_conditions(f, s.block.name)
     okc = False
